@@ -288,3 +288,50 @@ optional_u32 = dict(
     structs=[], prelude=OPT_PRE, enforce='lem_roundtrip', replace=[], funcs=opt_funcs, harness='  lem_roundtrip();',
     dropped=['reference parameters as pointers', 'the _WIN32 wide-string arm (not compiled on this platform)', 'std::optional as {flag, value}: operator*, has_value, assignment'], trusted=['memcpy (CBMC built-in)'], min_obligations=5)
 UNITS += [pair_u32_double, optional_u32]
+
+# ------------------------------------------------------------------------------------------ std/Array.h: Codec<uint32_t[4]> (C array of arithmetic type)
+AH = 'quill/std/Array.h'
+ARR_PRE = BASE + r'''
+#define BUFSZ 32
+#define N 4
+typedef uint32_t T;
+typedef struct ArrT { T a[N]; } ArrT;                               /* std::array<T, N> returned by decode_arg */
+'''
+ARR_RE = r'struct\s+Codec<T\[N\],'
+ARR_GXX = 'using T = uint32_t; constexpr std::size_t N = 4;'
+arr_funcs = codec_funcs_for('using Arg = uint32_t;', 'CDE_', 'uint32_t') + [
+    dict(src=dict(header=AH, cls='Codec', cls_re=ARR_RE, name='compute_encoded_size'), cfun='CDA_compute_encoded_size', sig='size_t CDA_compute_encoded_size(IV* cache_p, T const (*arg_p)[N])',
+         constexpr_gxx=ARR_GXX, pre_rules=PRULES),
+    dict(src=dict(header=AH, cls='Codec', cls_re=ARR_RE, name='encode'), cfun='CDA_encode', sig='void CDA_encode(unsigned char** buffer_p, IV* cache_p, uint32_t* idx_p, T const (*arg_p)[N])',
+         constexpr_gxx=ARR_GXX, pre_rules=PRULES),
+    dict(src=dict(header=AH, cls='Codec', cls_re=ARR_RE, name='decode_arg'), cfun='CDA_decode_arg', sig='ArrT CDA_decode_arg(unsigned char** buffer_p)', constexpr_gxx=ARR_GXX,
+         pre_rules=[r_ for r_ in PRULES if r_[0] != r'\barg\b'] + [(r'using\s+ReturnType\s*=[^;]*;', ''), (r'std::array<ReturnType,\s*N>\s+arg\s*;', 'ArrT arg;'), (r'\barg\[(\w+)\]', r'arg.a[\1]')]),
+    dict(cfun='lem_roundtrip', text=r'''
+uint32_t nondet_u32(void);
+void lem_roundtrip(void)
+__CPROVER_assigns()
+__CPROVER_ensures(1 == 1)
+{
+  static unsigned char buf[BUFSZ];
+  IV cache; cache.n = 0;
+  T argv[N]; for (int i = 0; i < N; i++) argv[i] = nondet_u32();
+  size_t const size = CDA_compute_encoded_size(&cache, &argv);
+  __CPROVER_assert(size == sizeof(T) * N, "C04: reserved size is the specified encoded size (N elements, no count)");
+  unsigned char* w = buf; uint32_t idx = 0;
+  CDA_encode(&w, &cache, &idx, &argv);
+  __CPROVER_assert((size_t)(w - buf) == size, "C04: bytes written by encode == bytes reserved by the size pass");
+  unsigned char* r = buf;
+  ArrT d = CDA_decode_arg(&r);
+  __CPROVER_assert(r == w, "C04: bytes consumed by decode == bytes written by encode");
+  size_t j; __CPROVER_assume(j < N);
+  __CPROVER_assert(d.a[j] == argv[j], "C04: the decoded array equals the argument, element by element");
+}
+''')]
+array_u32 = dict(
+    name='CD.roundtrip[uint32_t[4]]', primary='C04', props={'C04'}, kind='L',
+    desc='quill/std/Array.h Codec<uint32_t[4]> (C array, arithmetic arm selected by g++) over the real bodies, with the real Codec<uint32_t> body for the nested decode',
+    structs=[], prelude=ARR_PRE, enforce='lem_roundtrip', replace=[], funcs=arr_funcs, harness='  lem_roundtrip();',
+    cbmc=['--unwind', '6', '--unwinding-assertions'], width_bounded='the loops run N = 4 times (template argument, not an input): --unwind 6 with unwinding assertions is complete for this instantiation',
+    dropped=['reference-to-array parameter as pointer-to-array', 'std::array as a struct holding T[N]'], trusted=['memcpy (CBMC built-in)'],
+    assumes=['harness assume: ghost element index < N'], allow_assume=True, min_obligations=5)
+UNITS += [array_u32]
